@@ -261,7 +261,7 @@ func checkC11(c C11Case, st *evid.Stats) error {
 		}
 		want, pan := HelpAt(c.Spec, c.HelpOf)
 		if pan != "" {
-			return failf("Help() panicked: %s", pan)
+			return failf("panic in Help(): %s", pan)
 		}
 		if out.DispWriter != want {
 			return failf("help request wrote\n%q\nwant the help of level %s:\n%q\n%s", out.DispWriter, c.HelpOf, want, ctx)
